@@ -16,10 +16,10 @@ EX = "exploration"
 CHECKS = {
  "C01": (MC, "3 (C01)", "explicit-state BFS to closure over the real filters: all hash classes, all eviction outcomes, all ordered union pairs",
    "Closure BFS of the real Bloom / HashSet / quotient / cuckoo filters over the complete hash-class universe of tiny configurations (every insert, delete of inserted elements, clear, union of every ordered pair of reachable states, every RNG outcome under kick budgets 1..4 and prefix-exhaustive scripts for the real 500-kick limit). Every reachable state is compared with the reference; no false negative exists within these bounds. The cuckoo part is repeated on the real rand crate with scripted extreme words (mc-real).",
-   "Tables of <= 8 slots / <= 6 bits (plus 62..64-bit wide variants over extreme fingerprints); hasher and RNG behind seams (TableHasher, rand-shim bound to rand 0.8.8 by mc-real); 500-kick walks covered by free-prefix x 3 tail policies, budgeted runs exhaustive."),
+   "Tables of <= 8 slots / <= 6 bits (plus 62..64-bit wide variants over extreme fingerprints); hasher and RNG behind seams (TableHasher, rand-shim bound to rand 0.8.8 by mc-real); 500-kick walks covered by free-prefix x 3 tail policies, budgeted runs exhaustive. Complemented by medium-scale deterministic differential runs (tables of 64..4096 slots / sketches up to 40 rows, structured key families, exact reference) that are not exhaustive and not part of the exhaustive claim (DESIGN.md 8.4, fourth round)."),
  "C02": (MC, "3 (C02)", "history-tree exploration: every op sequence to a depth over the full (h1,h2) class universe, exact reference map",
    "Every sequence of add / add_n / merge / clear up to depth 5-6 (quick) / 6-7 (thorough) for 13 table shapes incl. w != d, 3 shift vectors, 5 counter types, over all (h1,h2) hash classes plus same-class distinct elements; at every node true(x) <= query_point(x) <= total for every element, add's return value and single-distinct exactness.",
-   "Depth-bounded; classes enumerated through the hasher seam; totals < 255 (overflow is outside the property)."),
+   "Depth-bounded; classes enumerated through the hasher seam; totals < 255 (overflow is outside the property). Complemented by medium-scale deterministic differential runs (tables of 64..4096 slots / sketches up to 40 rows, structured key families, exact reference) that are not exhaustive and not part of the exhaustive claim (DESIGN.md 8.4, fourth round)."),
  "C03": (EX, "3 (C03), 7, 8.2", "exhaustive sweeps over register abstractions and canonical configurations + exact occupancy-law propagation in the linear-counting regime",
    "PARTIAL. Decided: (1) count() returns for every register histogram of the sweep (values up to 255), empty => 0, <= 8 occupied registers => within 1 for b >= 9; (2) for every b and every n on a dense geometric grid in [0.02m, 50m] the canonical register vector (exact quantiles of the register law) is counted within 1 sigma*n (2 inside the HLL++ bump) - reads every threshold, alpha branch and bias/raw-estimate row; relative_error() itself is compared with the HLL standard error; (3) inside the linear-counting regime (count() verified rank-independent on the real code) the RMS, mean and 3-sigma tail of the relative error over ALL hash streams are computed exactly under the ideal-hash measure (occupancy law propagated layer by layer, real count() per occupied-register count) for b <= 9 (quick) / 11 (thorough). NOT decided: the distributional clauses beyond the linear-counting regime / for larger b, and real hashers on structured keys (un-enumerable outcome space; no sampling is substituted).",
    "Canonical configuration probes bias, not variance; ideal-hash measure (uniform register choice) in part (3)."),
@@ -28,46 +28,46 @@ CHECKS = {
    "Float inputs are infinite: the claim covers the stated finite families; tie-aware rank interval; release semantics."),
  "C05": (MC, "3 (C05)", "probabilistic model checking by exhaustive enumeration: exact mass propagation over lumped sampler states, every RNG outcome weighted",
    "For k in 1..6 (quick) / 1..16 (thorough) and every marked stream position, the exact probability mass over (i, skip_until, slot of the marked item) is propagated layer by layer through the real add(); integer draws are enumerated with weight 1/arity, the unit draw's outcome classes are located on the real code by grid scan + recursive bisection. P(position in reservoir) = k/n to 1e-7 for n <= 4k+1 and within relative 1/k beyond, sum = k.",
-   "n <= 6k+4 (quick) / 6.5k (thorough), k <= 16; parametricity (sampler cannot inspect items); successor distribution constant on grid cells whose end points agree."),
+   "n <= 6k+4 (quick) / 6.5k (thorough), k <= 16; parametricity (sampler cannot inspect items); successor distribution constant on grid cells whose end points agree. Long-stream columns (k = 1, 2; n/k up to 900) judge over-representation only."),
  "C06": (MC, "3 (C06)", "exhaustive pair/triple sweeps over reachable states with witness streams, differential against replay into a fresh structure",
    "A.merge(B) is compared with a fresh structure fed witness(A)++witness(B) on the complete observation vector, B unchanged, plus commutativity / associativity / idempotence: Bloom (all pairs+triples of reachable bit states), CMS (all pairs, triples to length 2, of streams to length 3 over the class universe, 13 shapes), HLL (all pairs of subsets of 8 hashes for every b, all 2^24 triples for b=4), quotient filter (all ordered pairs of reachable states, triples for <= 200 states), cuckoo (ordered pairs x every RNG outcome against the multiset sum).",
-   "Tiny configurations; bounded right operand for 8-slot quotient filters in quick."),
+   "Tiny configurations; bounded right operand for 8-slot quotient filters in quick. Complemented by medium-scale deterministic differential runs (tables of 64..4096 slots / sketches up to 40 rows, structured key families, exact reference) that are not exhaustive and not part of the exhaustive claim (DESIGN.md 8.4, fourth round)."),
  "C07": (EX, "3 (C07)", "exhaustive (n,p) usability grid + exact probe-space enumeration of false-positive frequency per state",
    "(a) constructors over n in {1..64,100,10^3,10^4[,10^5]} x 109 p values: k>=1, m>=1, n inserts/queries work, cuckoo accepts n inserts under scripted RNG policies; (b) false-positive frequency of the resulting state computed exactly over the whole probe hash space (all m^2 (h1,h2) pairs / all (fingerprint,bucket) pairs / all fingerprints) for a fixed family of hasher seeds, verdict only if mean - 4 SE exceeds 1.3p (Bloom) / p (cuckoo); (c) Bloom len() within 8 % while half empty.",
-   "The seed dimension of (b) is a fixed finite family (reported with standard error): exploration, not exhaustive; p >= 1e-3 for rate verdicts."),
+   "The seed dimension of (b) is a fixed finite family (reported with standard error): exploration, not exhaustive; p >= 1e-3 for rate verdicts. Filters beyond 2^20 bits are probed with a fixed family of 2*10^6 structured keys (a sample of the probe space)."),
  "C08": (MC, "3 (C08)", "exact enumeration of ALL hash-class assignments on the real sketch (ideal-hash measure), exact failure fraction vs delta",
    "For eps in {0.5,0.4[,0.3,0.25,0.2]} x 9 deltas x 5 stream shapes every assignment of (h1 mod w, h2 mod w) to the stream elements and to an absent probe is executed on the sketch built by with_point_query_properties_and_hasher; the exact fraction with overestimate > eps*N must be <= delta. Cells with delta < 1/w^2 fail because of enhanced double hashing (total coincidences collide in every row): 21 recorded known findings; any excess beyond that floor is a violation.",
    "Ideal-hash measure over (h1,h2) classes; t <= 3 stream elements, w <= 14."),
  "C09": (MC, "3 (C09)", "history-tree exploration over a symbolic alphabet, every prefix, exact frequency map",
    "Every stream over {a,b,c,fresh} up to length 10 (quick) / 12 (thorough) for 10 constructors (width 1..5, 5 epsilons with width != 1/eps), every prefix, 24 thresholds: n(), add's return value, table-size bound, no misses, no intruders; plus 5 boundary-adversarial generators per constructor checked at every prefix.",
-   "Comparisons within 1e-9 of a boundary skipped (implementation compares in f64)."),
+   "Comparisons within 1e-9 of a boundary skipped (implementation compares in f64). Streams of up to 282 k / 420 k adds cross the 65536-window mark."),
  "C10": (MC, "3 (C10)", "history-tree exploration with iterative deepening, every collision-class assignment, twin-sketch oracle, assertions on",
    "Every stream over 4 letters up to length 7-9 (quick) / 9-11 (thorough), every prefix, k in 1..3, sketches 1x1, 2x1, 1x2, 2x2 under every assignment of letters to collision classes and a verified collision-free 64x4 sketch: result size/distinctness/membership, missing-element bound with E from a twin sketch, exact top-k when collision-free, no panic with debug assertions on.",
-   "CMSHeap fixes its hasher; collisions forced through the element's Hash impl."),
+   "CMSHeap fixes its hasher; collisions forced through the element's Hash impl. Plus leapfrog streams beyond counts of 128 on a collision-free sketch and long Zipf-like streams."),
  "C11": (EX, "3 (C11)", "enumerative monitoring with a counting allocator over a configuration grid and growing streams",
    "Live heap bytes attributable to one structure (per-thread counting allocator) after construction, after streams of 10..10^5 (10^6 thorough) elements, after clear, after failed insert/union and after merge, for 225+ configurations (cuckoo l = 2..64, quotient r = 1..60, ...): <= 3 x documented size + 1 KiB and no growth between short and long streams (LossyCounter: documented log bound).",
    "Allocator-level requested bytes; harness bookkeeping subtracted."),
  "C12": (MC, "3 (C12)", "explicit-state BFS + exhaustive pair sweep of failing calls, before/after differential on the full observation vector",
    "Every failing insert met during the closure BFS and every failing union over ordered pairs of reachable states (failure at the first, a middle and the last transferred fingerprint all exercised and counted; run aborts as vacuous otherwise) is compared before/after on len, is_empty, query of every element and deletable copies; internal differences are explored further.",
-   "Same tiny configurations as C01; observational equality judged on the complete universe of the configuration."),
+   "Same tiny configurations as C01; observational equality judged on the complete universe of the configuration. Complemented by medium-scale deterministic differential runs (tables of 64..4096 slots / sketches up to 40 rows, structured key families, exact reference) that are not exhaustive and not part of the exhaustive claim (DESIGN.md 8.4, fourth round)."),
  "C13": (MC, "3 (C13)", "explicit-state BFS to closure, reference set of fingerprint classes, closed-form state count",
    "Closure BFS of the real QuotientFilter over all 2^(q+r) fingerprints (plus same-class variants) for (q,r) up to 8 slots (32 slots' worth of classes in thorough); every transition checks insert result, len and query of every element against a set of classes computed from the implementation. The number of distinct reference states reached must equal the closed form sum C(2^(q+r), j<=2^q).",
-   "Identity hasher seam; slot state read through the verif_state hook; wide remainders only through 12 extreme fingerprints."),
+   "Identity hasher seam; slot state read through the verif_state hook; wide remainders only through 12 extreme fingerprints. Complemented by medium-scale deterministic differential runs (tables of 64..4096 slots / sketches up to 40 rows, structured key families, exact reference) that are not exhaustive and not part of the exhaustive claim (DESIGN.md 8.4, fourth round)."),
  "C14": (MC, "3 (C14)", "explicit-state BFS to closure with exhaustive RNG outcomes, reference multiset of classes",
    "Closure BFS of the real CuckooFilter over insert/delete of every key (fingerprint x first bucket) under every fingerprint->alternate-bucket map, once per eviction outcome; len, query, delete results, deletable copies and table occupancy are compared with a multiset of classes in every state.",
-   "bucketsize<=3, n_buckets<=4, l in {2,3,64}; kick budgets 1..6 exhaustive, real 500-kick limit by free prefix (4 quick / 10 thorough) x 3 tail policies."),
+   "bucketsize<=3, n_buckets<=4, l in {2,3,64}; kick budgets 1..6 exhaustive, real 500-kick limit by free prefix (4 quick / 10 thorough) x 3 tail policies. Complemented by medium-scale deterministic differential runs (tables of 64..4096 slots / sketches up to 40 rows, structured key families, exact reference) that are not exhaustive and not part of the exhaustive claim (DESIGN.md 8.4, fourth round)."),
  "C15": (MC, "3 (C15)", "history-tree exploration: oracle on every digest reached, plus structured digests",
    "Monotonicity, bounds, end points, cdf range, Galois consistency of cdf(quantile(q)) within the largest centroid share, idempotent reads, empty behaviour - evaluated on a clone of every digest reached by every operation sequence up to depth 5 (quick) / 6 (thorough) over 5 unit inserts, 8 weighted inserts (weights 0..1e6), reads and clear, for 48 configurations, plus 1152+ structured digests with heavy outer centroids.",
    "Release semantics (interpolation debug_assert!s are stricter than the property's ulp tolerance); tolerance = 8 ulps of the data range x total/min weight."),
  "C16": (MC, "3 (C16)", "history-tree exploration, Kahan-sum reference",
    "count/sum/mean vs compensated sums, exact min/max, is_empty, zero-weight insert leaves 16 observations bit-identical, at every node of every operation sequence up to depth 5 (quick) / 6 (thorough) for 48 configurations (4 scale functions x delta 1.1..100 x backlog 0..3).",
-   "Relative 1e-9 on sums."),
+   "Relative 1e-9 on sums. Plus deterministic histories of 8000 / 60000 weighted inserts."),
  "C17": (MC, "3 (C17)", "bounded exhaustive sequences over a boundary-pattern hash universe, specification-derived reference",
    "For every b in 4..=18 every sequence of up to 2-3 add_hashed over a ~78-hash universe (all single bits, 0, all ones, index/rank boundary patterns): registers equal the semantics of the property text; pairwise commutation and idempotence in the states of the last level (=> permutation / repetition invariance by induction); add == add_hashed(hash_one) under two hashers; register round trip.",
    "Sequence length <= 3."),
  "C18": (MC, "3 (C18)", "explicit-state BFS over lumped sampler states with every RNG outcome; real-rand word scripts",
    "BFS over (reservoir positions, i, skip_until) for k in 1..4 (quick) / 1..5 (thorough), n up to 4k+5..16; every add executed once per value of every integer draw and per unit value of a 78-value alphabet of values the real generator can return: size, distinct positions, prefix, i(), is_empty, no panic. mc-real repeats the invariants on the real rand crate for all word scripts of length <= 3 over 8 extreme words, and proves the shim's outcomes reachable by real rand for every arity 1..64.",
-   "Unit alphabet instead of all 2^52 values; skip_until capped at the horizon."),
+   "Unit alphabet instead of all 2^52 values; skip_until capped at the horizon. mc-real also runs streams of 120000..300000 items for k up to 1000 on the real rand crate."),
  "C19": (MC, "3 (C19)", "pre-history trees x lockstep continuation trees against a fresh instance, identical RNG picks",
    "For 43 structure configurations covering all nine structures: every pre-history up to depth 3-5 (+3 deterministic ones of 1000 ops), clear(), then every continuation up to depth 3-4 with every RNG outcome replayed identically on a fresh instance (+3 deterministic continuations of 60-200 ops), full observation vector compared after every step; clone independence and the is_empty contract in every pre-history node.",
    "Depth-bounded; op alphabets of <= 9 operations per structure."),
